@@ -68,6 +68,7 @@ pub async fn verify_consecutive_append_only<TC: Configuration>(
     end_hash: Digest,
     end_epoch: u64,
 ) -> Result<(), AkdError> {
+    verify_prefix_free(&proof.unchanged_nodes, &proof.inserted)?;
     verify_append_only_hash::<TC>(proof.unchanged_nodes.clone(), start_hash, None).await?;
 
     let mut unchanged_with_inserted_nodes = proof.unchanged_nodes.clone();
@@ -79,6 +80,33 @@ pub async fn verify_consecutive_append_only<TC: Configuration>(
 
     verify_append_only_hash::<TC>(unchanged_with_inserted_nodes, end_hash, Some(end_epoch - 1))
         .await?;
+    Ok(())
+}
+
+/// Checks that no label among the unchanged and inserted nodes is equal to, or a prefix
+/// of, another one. Otherwise rebuilding the tree would silently drop the shorter
+/// (or duplicated) element, and with it everything that its hash commits to.
+fn verify_prefix_free(
+    unchanged: &[AzksElement],
+    inserted: &[AzksElement],
+) -> Result<(), AkdError> {
+    let mut seen = std::collections::HashSet::new();
+    for node in unchanged.iter().chain(inserted.iter()) {
+        let label = node.label.get_prefix(node.label.get_len());
+        if label.get_len() > 256 || !seen.insert(label) {
+            return Err(AkdError::AuditErr(AuditorError::VerifyAuditProof(format!(
+                "The proof contains an invalid or duplicated label {:?}",
+                node.label
+            ))));
+        }
+    }
+    for label in seen.iter() {
+        if (0..label.get_len()).any(|len| seen.contains(&label.get_prefix(len))) {
+            return Err(AkdError::AuditErr(AuditorError::VerifyAuditProof(format!(
+                "The proof contains a label which extends another label of the proof {label:?}"
+            ))));
+        }
+    }
     Ok(())
 }
 
